@@ -200,7 +200,7 @@ static std::vector<Known> load_known() {
 }
 
 static const Known *match_known(const std::vector<Known> &ks, const sim::Violation &v) {
-	for (auto &k : ks) if (k.status == "known" && k.property == v.property && k.rule == v.rule && (k.key == v.key)) return &k;
+	for (auto &k : ks) if (k.status == "known" && (k.property == v.property || k.property == v.oracle_property) && k.rule == v.rule && (k.key == v.key)) return &k;
 	return nullptr;
 }
 
